@@ -21,6 +21,13 @@
 
 using json = nlohmann::ordered_json;
 
+#ifdef VSIM_GCOV
+extern "C" void __gcov_dump(void);
+#define VSIM_GCOV_DUMP() __gcov_dump()
+#else
+#define VSIM_GCOV_DUMP() ((void)0)
+#endif
+
 extern "C" __attribute__((used)) const char *__asan_default_options()
 {
   return "exitcode=77:detect_leaks=0:abort_on_error=0:allocator_may_return_null=1:"
@@ -950,6 +957,7 @@ static int worker_main(const std::string &prop,
   }
   ws.next_index = index;
   print_summary();
+  VSIM_GCOV_DUMP();
   _exit(0);
 }
 
